@@ -48,6 +48,7 @@ fn checks_for(prop: &str) -> Checks {
         "C03" => Checks { ids_orbits: true, ..Default::default() },
         "C04" | "C05" => Checks { sew_effect: true, ..Default::default() },
         "C18" => Checks { alloc: true, ..Default::default() },
+        "C06" => Checks { error_unchanged: true, ..Default::default() },
         "C13" | "C14" | "C15" => Checks { kernels: true, ..Default::default() },
         _ => Checks::default(),
     }
@@ -403,7 +404,7 @@ fn run_one(cfg: &Cfg, tier: Tier, i: u64, seed: u64, c: &mut Counters) -> Vec<Vi
 
 fn cfgs_for(prop: &str) -> Vec<Cfg> {
     match prop {
-        "C03" | "C18" => {
+        "C03" | "C18" | "C06" => {
             let a = cfg_for(prop);
             let mut b = cfg_for(prop);
             b.dim = 3;
@@ -431,6 +432,8 @@ fn cfg_for(prop: &str) -> Cfg {
             rule: "one evaluation = one seeded history of vertex insertions (single and k = 1..3, valid and invalid spare darts, counts and positions; forced re-execution) on embedded well-formed 2-maps incl. dangling darts, 1-free/0-free ends, boundary and interior edges, judged by the exact subdivision oracle (all other darts incl. dart 0 bit identical); distinct_nontrivial = distinct full map states reached" },
         "C15" => Cfg { known: Default::default(), prop: "C15", dim: 2, flavour: Flavour::Remesh, quick_runs: 30_000, thorough_runs: 3_000_000, max_steps: 12,
             rule: "one evaluation = one seeded history of swap / cut / collapse calls on a perturbed split grid (with and without anchors), each successful call compared with the geometric reference model (expected set of oriented coordinate triangles, adjacency = geometric adjacency, counts, area, flags, anchors); distinct_nontrivial = distinct full map states reached" },
+        "C06" => Cfg { known: Default::default(), prop: "C06", dim: 2, flavour: Flavour::Edits, quick_runs: 16_000, thorough_runs: 1_600_000, max_steps: 30,
+            rule: "histories leg of C06" },
         "C02" => Cfg { known: Default::default(), prop: "C02", dim: 3, flavour: Flavour::Edits, quick_runs: 25_000, thorough_runs: 2_500_000, max_steps: 30,
             rule: "one evaluation = one seeded single-client history of up to 30 public editing calls (allocation, removal, link/unlink/sew/unsew in dimensions 1-3, both forms, with F1/F2 faults) on a generated polyhedral 3-map (tetrahedra, pyramids, prisms, hexahedra; some faces unglued or opened); well-formedness incl. the mirror condition evaluated on a full snapshot after every call, and every successful 3-link/3-sew compared with the model's mirrorability judgement; distinct_nontrivial = distinct full map states reached" },
         "C05" => Cfg { known: Default::default(), prop: "C05", dim: 3, flavour: Flavour::Sews, quick_runs: 25_000, thorough_runs: 2_500_000, max_steps: 25,
@@ -446,6 +449,13 @@ pub fn digest(prop: &str, n: u64) {
 }
 
 pub fn check(prop: &str, tier: Tier) -> i32 {
+    let (total, viols, wall, rule) = collect(prop, tier);
+    finish(prop, tier, total, viols, wall, rule)
+}
+
+/// Run the history batches of `prop` and return raw results (used by C06, which adds its own
+/// fault-enumeration leg).
+pub fn collect(prop: &str, tier: Tier) -> (Counters, Vec<Violation>, f64, String) {
     let mut cfgs: Vec<Cfg> = cfgs_for(prop);
     for c in &mut cfgs {
         c.known = known_classifiers(prop).keys().cloned().collect();
@@ -463,6 +473,10 @@ pub fn check(prop: &str, tier: Tier) -> i32 {
         viols.extend(v);
         wall += w;
     }
+    (total, viols, wall, cfgs[0].rule.to_string())
+}
+
+fn finish(prop: &str, tier: Tier, mut total: Counters, viols: Vec<Violation>, wall: f64, rule: String) -> i32 {
     for v in &viols {
         total.inc(&format!("candidate_class_{}", v.class));
     }
@@ -481,7 +495,7 @@ pub fn check(prop: &str, tier: Tier) -> i32 {
         wall_s: wall,
         evaluations: total.get("histories"),
         distinct_nontrivial: total.n_distinct("states"),
-        rule: cfgs[0].rule.into(),
+        rule,
         assumptions: vec![
             "oracles are transcriptions of the property statement; where the statement is silent the model adopts the implementation's values (counted as adoptions/hedged calls)".into(),
             "single simulated client on the instrumented STM (forced re-executions via F2); concurrent behaviour is covered by C07's serial-order oracle".into(),
